@@ -389,7 +389,8 @@ func (w *world) judge(ev string, before, after []tars.VerifEpState, pqAfter int)
 		for i := range after {
 			blocked := after[i].HasAdapter && !after[i].Status
 			// (a connection attempt that failed while the server was down also restarts the 30 s)
-			if blocked && w.servers[i].mode != refusing && w.now()-w.lastPB[i] >= 32 && w.now()-w.reachSince[i] >= 32 && pqAfter == 0 {
+			// (an endpoint the registry lists as inactive is none of the status check's business)
+			if blocked && !w.inact[i] && w.servers[i].mode != refusing && w.now()-w.lastPB[i] >= 32 && w.now()-w.reachSince[i] >= 32 && pqAfter == 0 {
 				w.bad = append(w.bad, fmt.Sprintf("blocked-reachable-endpoint-not-queued-for-a-probe-after-30s\nep%d blocked/probed at t=%d, now t=%d", i, w.lastPB[i], w.now()))
 			}
 		}
